@@ -21,11 +21,12 @@ def renderRec : R Rec → String
 def hexOrEmpty (s : String) : Option Bytes := if s = "-" then some [] else parseHex s
 
 def step (line : String) : String :=
-  match line.splitOn " " with
+  match (line.splitOn " ").filter (fun t => !t.startsWith "mut:") with
   | ["BS", name, inp] =>
     match BleSpec.layouts.find? (·.1 == name), hexOrEmpty inp with
     | some (_, L), some i => renderRec (BleSpec.decode L i)
     | _, _ => "bad-op"
+  | ["BU", name, field] => (BleSpec.unitOf name field).getD "none"
   | _ => "bad-op"
 
 partial def loop (h : IO.FS.Stream) (out : IO.FS.Stream) : IO Unit := do
